@@ -16,7 +16,7 @@ from pandera.backends.pandas.error_formatters import (
     reshape_failure_cases,
 )
 from pandera.backends.utils import convert_uniquesettings
-from pandera.config import ValidationScope
+from pandera.config import ValidationDepth, ValidationScope, get_config_context
 from pandera.engines import pandas_engine
 from pandera.errors import (
     ParserError,
@@ -500,12 +500,18 @@ class DataFrameSchemaBackend(PandasSchemaBackend):
         if not (schema.strict or schema.ordered):
             return check_obj
 
+        # strictness and order are schema-level constraints: they are not
+        # enforced when only the data is validated
+        schema_level = (
+            get_config_context().validation_depth != ValidationDepth.DATA_ONLY
+        )
+
         filter_out_columns = []
 
         sorted_column_names = iter(column_info.sorted_column_names)
         for column in column_info.destuttered_column_names:
             is_schema_col = column in column_info.expanded_column_names
-            if schema.strict is True and not is_schema_col:
+            if schema_level and schema.strict is True and not is_schema_col:
                 raise SchemaError(
                     schema=schema,
                     data=check_obj,
@@ -524,7 +530,7 @@ class DataFrameSchemaBackend(PandasSchemaBackend):
                     next_ordered_col = next(sorted_column_names)
                 except StopIteration:
                     pass
-                if next_ordered_col != column:
+                if schema_level and next_ordered_col != column:
                     raise SchemaError(
                         schema=schema,
                         data=check_obj,
